@@ -11,17 +11,107 @@ TECH_HIST = 'explicit-state breadth-first search over operation histories on the
 # id: (level text, note, technique, design_ref)
 CHECKS = {
     'C01': ('Every total Kripke structure with <=2 states over {p,q} (all labellings) x every CTL '
-            'formula with <=2 operators, all 3-state structures (representatives in quick, all '
-            'labelled in thorough) x all formulas with <=1 operator, and seed-indexed complete '
+            'formula with <=2 operators and a 3-ary and/or family, all 3-state structures '
+            '(representatives in quick, all labelled in thorough) x all formulas with <=1 operator, '
+            'all 50625 total graphs on 4 states for the SCC-based operators, and seed-indexed complete '
             'blocks of the 692,860 three-operator formulas: the real CTL.modelcheck must return '
             'exactly the set computed by naive per-operator fixpoints. Small scope is adequate '
             'because the labelling algorithm is compositional: over all labellings every '
             'operator meets every operand-set pair on every graph.',
             'Trusted: the ~60-line naive fixpoint reference, itself audited on every size<=1 '
             'case against an explicit product construction, witness lassos evaluated by literal '
-            'path semantics, and a complete bounded lasso sweep. Bounds: n<=3 (4 with one atom), '
-            'formula size<=3.',
-            TECH, '7/C01'),
+            'path semantics, and a complete bounded lasso sweep. Bounds: n<=3 (4 for SCC-based '
+            'operators), formula size<=3.', TECH, '7/C01'),
+    'C02': ('All labelled structures with <=2 states x all LTL formulas A g with g of size<=1, '
+            'iso-representatives x all 4224 size-2 path formulas, a 3-ary and/or family, 3-state '
+            'structures over one atom, and blocks (thorough: all) of the 20048 size-3 formulas: '
+            'LTL.modelcheck must equal S minus the states with a path satisfying not g, computed by '
+            'a brute-force product over all guesses of the temporal subformulas. The tableau is not '
+            'compositional, hence three nested temporal operators.',
+            'Trusted: the product reference; every excluded state is certified by a witness lasso '
+            're-evaluated with the literal path semantics, every included state (n<=2) by a sweep '
+            'of all lassos with stem<=n, loop<=n+1.', TECH, '7/C02'),
+    'C05': ('Every formula of size<=2 of CTL, LTL and CTL* (+3-ary family, size-3 blocks), also under '
+            '0..3 outer negations: get_equivalent_restricted_formula() must stay inside the '
+            'documented restricted alphabet and be equivalent on every Kripke structure with <=2 '
+            'states (state formulas) or on every lasso word over 2^{p,q} within the length bound '
+            '(path formulas); LNot(f) must be equivalent to not f and not start with two negations. '
+            'The implementation\'s checkers are never called, so this is independent of C01-C03.',
+            'Trusted: reference semantics only. Finding D8 (LTL.A rewriting raises AttributeError) '
+            'is listed in known_findings.json and matched by call site and exception.', TECH, '7/C05'),
+    'C08': ('All operator trees of depth<=2 over the union alphabet (and a block of depth 3) x 4 '
+            'languages: construction with native operands, raw str/bool leaves and operands built '
+            'in every other language, cast_to between all ordered language pairs, and the three '
+            'modelcheck functions must succeed exactly on members of the language (documented '
+            'grammars transcribed in mc/members.py) and raise TypeError otherwise.',
+            'Trusted: membership predicates and a structural reader that uses class names and child '
+            'lists only. Only documented arities are generated.', TECH, '7/C08'),
+    'C09': ('All formulas of size<=2 per logic, 3-ary and/or families, same-operator nestings, negation '
+            'towers, a 33-name lexer-hostile atom menu and blocks of size 3: Parser()(str(f)) must have '
+            'exactly the tree of f with every node in the logic (CTL printed in CTL* notation), and the '
+            'printed-string -> tree table must stay a function (injectivity).',
+            'Trusted: the structural reader. Atom names are non-reserved identifiers.', TECH, '7/C09'),
+    'C10': ('Every token string of length<=4 (5 and blocks of 6 in thorough) over a 20-token alphabet '
+            'to all four parsers in one process, one-character deviations of every accepted string of '
+            '<=3 tokens, empty/whitespace inputs, cross-feeding of printed formulas: a parser either '
+            'raises UnexpectedToken/UnexpectedCharacters with 0<=pos<=len or returns a formula of its '
+            'own logic whose in-order yield is the input and whose input is derivable in the '
+            'documented grammar (independent backtracking recogniser).',
+            'Trusted: hand transcription of the four Parser.grammar attributes (mc/refparse.py). No '
+            'completeness is demanded of the LALR parsers.', TECH, '7/C10'),
+    'C11': ('All ordered pairs of a per-logic pool of ~1-5k formulas (size<=2, 3-ary families, printer '
+            'stress shapes, renamed atoms): == iff same tree, symmetric, consistent with !=, hash, '
+            'set and dict behaviour; transitivity on all triples of a 60-formula core; Bool vs bool; '
+            'clone() equal, node-disjoint and mutation-independent.',
+            'Trusted: structural reader for tree identity.', TECH, '7/C11'),
+    'C12': ('Every labelled digraph on <=4 nodes (5 in thorough) under every node insertion order, '
+            'every renaming (n<=3) and every per-node successor iteration order (n<=3; n=4 block in '
+            'quick, all 17.8M in thorough): the yielded components must partition V and equal the '
+            'mutual-reachability classes of a Warshall closure.',
+            'Trusted: Warshall closure; successor order is controlled by order-preserving set '
+            'subclasses installed from the harness.', TECH, '7/C12'),
+    'C13': ('Every digraph on <=4 nodes x every node subset: reachable set, reversed graph (once and '
+            'twice), subgraph (also with a non-node), clone + every one-step mutation; plus every '
+            'operation history of length<=3 (4 in thorough) over 24 mutators/queries from 11 initial '
+            'graphs replayed on a real DiGraph next to a set model. G must be unchanged by queries.',
+            'Trusted: Warshall closure, set comprehensions.', TECH_HIST, '7/C13'),
+    'C14': ('All (S,S0,R,L) combinations from menus covering non-total relations, states introduced by '
+            'R only, labels for non-states, S0 outside S, every label container type; for every '
+            'constructed structure every subset V for get_substructure and clone with mutations.',
+            'Trusted: literal expectations computed from the arguments. L is None or a dict.', TECH, '7/C14'),
+    'C15': ('get_fair_states on every total graph with <=4 states x every list of <=2 state sets; '
+            'modelcheck(...,F=F) for CTL, LTL and CTL* on all labelled structures with <=2 states and '
+            '3-state structures over one atom x every such F x one-operator formulas over atoms and '
+            'negated atoms, against the Clarke-Grumberg-Peled fair semantics (fairness sets as extra '
+            'Buchi sets); K and F must be untouched and no exception may escape.',
+            'Findings D4 and D7 (known_findings.json) are genuine defects that cannot be repaired '
+            'without breaking the unedited suite; they are recognised through defect models '
+            '(mc/fairmodel.py): an answer is attributed to them only if it equals the model of the '
+            'defect, anything else is a violation. Boolean constants excluded from exactness.',
+            TECH, '7/C15 and 8'),
+    'C16': ('Explicit-state breadth-first search over histories of the process-global BDD node store: '
+            'build / apply / negate / restrict / grab child / drop / gc on 2-3 slots over 2-3 '
+            'variables, every ordering; 2 variables x 2 slots searched to closure, others depth '
+            'bounded; each transition runs the real library by replaying the history; invariants: no '
+            'two live nodes with equal (var,low,high) or equal function, reduced, ordered, parent '
+            'sets exact, slots agree with a truth-table model, == iff same root iff same function.',
+            'State merging by (slot truth tables, multiset of live (var, truth table)); gc disabled '
+            'during search with gc.collect as an operation plus a free-running pass at threshold 1. '
+            'Address-dependent violations may not replay in every fresh process (noted in artefact).',
+            TECH_HIST, '7/C16'),
+    'C17': ('All 256 functions of 3 variables under all 6 orderings: every ordered pair x {&,|,^}, '
+            'negation, every restriction; all expressions of depth<=2; cross-ordering call histories; '
+            'thorough: all 65536 functions of 4 variables x a partner menu. Results must have the '
+            'right truth table, be ordered, reduced, of minimal size, share the canonical root, and '
+            'variables() must be the semantic support; ordering mismatch / unknown variable raise.',
+            'Trusted: truth tables and subfunction counting.', TECH, '7/C17'),
+    'C18': ('Every expression of depth<=2 over a,b,c,0,1 x every argument order (+unused variable): '
+            'lambda form == expression form; word spellings; 7k unparenthesised n-ary / mixed-'
+            'precedence strings judged against Python\'s own evaluation; str(o.root) and str(o) '
+            're-parsed for all 256 (thorough 65536) functions x all orderings; missing variable => '
+            'RuntimeError; 50 non-Boolean inputs => SyntaxError.',
+            'Trusted: truth tables; Python\'s evaluation of the same string as precedence reference.',
+            TECH, '7/C18'),
 }
 
 NOT_YET = {}
